@@ -60,6 +60,20 @@ fn c12_color_rgba_hsla_eq_symmetric() {
     let b = Color::Hsla(any_hsla_valid());
     assert!((a == b) == (b == a), "rgb == hsl is symmetric");
 }
+/// C12 (equality consistent with ordering): two rgb colors are `==`
+/// exactly when `cmp` says Equal — in particular channels that differ only
+/// by conversion rounding (< 1e-7, what rebuilding a color from its hsl /
+/// hwb channels produces, C31) still compare equal.
+#[kani::proof]
+#[kani::stub(crate::value::colors::hsla::deg_mod, crate::value::colors::hsla::kani_verif::deg_mod_by_contract)]
+fn c12_color_eq_consistent_with_cmp_rgba() {
+    let a = any_rgba_valid();
+    let b = any_rgba_valid();
+    let (ca, cb) = (Color::Rgba(a.clone()), Color::Rgba(b.clone()));
+    assert!((ca == cb) == (ca.cmp(&cb) == Ordering::Equal), "== agrees with cmp");
+    let close = (a.red() - b.red()).abs() < 1e-8 && a.green() == b.green() && a.blue() == b.blue() && a.alpha() == b.alpha();
+    assert!(!close || ca == cb, "channels within conversion rounding are equal colors");
+}
 /// C12: every (non-NaN) color equals itself.
 #[kani::proof]
 #[kani::stub(crate::value::colors::hsla::deg_mod, crate::value::colors::hsla::kani_verif::deg_mod_by_contract)]
